@@ -1,7 +1,8 @@
 SPECIFICATION Spec
 CONSTANTS
   Digits = {1, 4, 7}
-  BodyLens = {1, 2, 3}
+  BodyLens = {1, 2, 3, 10}
+  FitMax = 9
   RegenRule = "any"
   MaxOps = 3
   Record = FALSE
